@@ -147,7 +147,8 @@ Lemma sm_entry_inrange n it o j1 :
 Proof.
   intros Hv Hn s Hlo Hhi Hj. destruct (valid_it_range it Hv) as [Hi Hc].
   unfold sm_entry. fold s. change (2 ^ 30) with 1073741824 in Hn.
-  assert (E1 : (sp_int s <? n) = true) by (apply Z.ltb_lt; lia). rewrite E1.
+  assert (E0 : (0 <=? sp_int s) = true) by (apply Z.leb_le; lia).
+  assert (E1 : (sp_int s <? n) = true) by (apply Z.ltb_lt; lia). rewrite E0, E1. cbn [andb].
   rewrite wrap32_small by (change (2 ^ 32) with 4294967296; lia).
   assert (E2 : (sp_int s + j1 - centre it <? n) = true) by (apply Z.ltb_lt; lia). rewrite E2.
   reflexivity.
